@@ -182,10 +182,13 @@ def run(ctx: Ctx) -> None:
         balanced = [c for c in walk_local(fn) if isinstance(c, ast.Call) and pm.resolve(fname, c) == ("self", "_consume_balanced_tokens")]
         ok = uses_counter
         why = f"{fname} no longer skips the {what} with _discard_contents"
-        if fname == "_consume_static_assert" and balanced and heuristic:
+        paren_counted = any(pm.resolve(fname, c) == ("self", "_discard_contents") and c.args and isinstance(c.args[0], ast.Constant) and c.args[0].value == "(" for c in walk_local(fn) if isinstance(c, ast.Call))
+        # (the initializer scanner may read a `decltype(...)` initializer-id with the balanced consumer; its argument
+        # lists - arbitrary expressions - are what must go through the counter)
+        if (fname == "_consume_static_assert" or (fname == "_discard_ctor_initializer" and not paren_counted)) and balanced and heuristic:
             ok = False
-            why = ("the static_assert condition is consumed with _consume_balanced_tokens, which treats '<' and '>' as brackets (with a tolerance heuristic) and ']]' as one token: "
-                   "a condition such as `N < 4 && (M > 2)` or `sizeof(t[i[0]])` ends the region early or raises")
+            why = (f"the {what} is consumed with _consume_balanced_tokens, which treats '<' and '>' as brackets (with a tolerance heuristic) and ']]' as one token: "
+                   "an expression such as `N < 4 && (M > 2)`, `x_(a < (b > 0 ? b : 1))` or `sizeof(t[i[0]])` ends the region early or raises")
         ctx.ob("R13.5", f"parser:CxxParser.{fname}|{what} skipped by the bracket counter", ok, msg=why, node=fn, mod=mod, nontrivial=False)
 
     # ---------------------------------------------------------------- R13.6
